@@ -27,21 +27,47 @@ def check(ctx, rep):
     eff.eff_4(ctx, rep, roots)
     # 292: the end-of-file test treats \n and \r alike
     rep.rule('NORM-9', "the 'no newline at end of file' test treats \\n and \\r symmetrically")
-    f = ctx.prog.func('parso/python/pep8.py', 'PEP8Normalizer._visit_node')
+    from ..facts import guards_of
+    from ..model import AnalysisError
+    pmod = ctx.prog.mod('parso/python/pep8.py')
+    pfolder = ctx.folder('parso/python/pep8.py')
     found = False
-    for n in walk_own(f.node):
-        if isinstance(n, ast.If) and any(isinstance(s, ast.Expr) and '292' in norm(s) for s in n.body):
+    for f in pmod.funcs.values():
+        for n in walk_own(f.node):
+            if not (isinstance(n, ast.Call) and isinstance(n.func, ast.Attribute) and n.func.attr == 'add_issue'
+                    and len(n.args) >= 2 and isinstance(n.args[1], ast.Constant) and n.args[1].value == 292):
+                continue
             found = True
-            t = norm(n.test, 500)
-            if "\\n" not in t and "\\r" not in t:
-                rep.skip('NORM-9', 'parso/python/pep8.py', f.qual, 'if %s' % t,
+            # every string constant the guards of this report test (module-level constants resolved)
+            ends, members = set(), set()
+            texts = []
+            for test, _pol in guards_of(n, f.node):
+                texts.append(norm(test, 200))
+                for x in ast.walk(test):
+                    if isinstance(x, ast.Call) and isinstance(x.func, ast.Attribute) and x.func.attr == 'endswith' and x.args:
+                        for c in ast.walk(x.args[0]):
+                            if isinstance(c, ast.Constant) and isinstance(c.value, str):
+                                ends.add(c.value)
+                    if isinstance(x, ast.Compare) and len(x.ops) == 1 and isinstance(x.ops[0], (ast.In, ast.NotIn, ast.Eq, ast.NotEq)):
+                        comp = x.comparators[0]
+                        consts = [c.value for c in ast.walk(comp) if isinstance(c, ast.Constant) and isinstance(c.value, str)]
+                        if isinstance(comp, ast.Name):
+                            try:
+                                v = pfolder.get(comp.id)
+                            except AnalysisError:
+                                v = None
+                            if isinstance(v, (set, frozenset, tuple, list)):
+                                consts = [c for c in v if isinstance(c, str)]
+                        members |= set(consts)
+            construct = '292 reported when ' + ' / '.join(texts)[:200]
+            if not (ends | members) & {'\n', '\r', '\r\n'}:
+                rep.skip('NORM-9', 'parso/python/pep8.py', f.qual, construct,
                          'the 292 condition does not test newline characters; whether it is exact is value reasoning (not decided)')
                 continue
-            ok = ("endswith('\\n')" in t) == ("endswith('\\r')" in t) and ("'\\n'" in t) == ("'\\r'" in t)
-            rep.ob('NORM-9', 'parso/python/pep8.py', f.qual, 'if %s' % t, ok, '292 is decided for one newline style only')
+            ok = (('\n' in ends) == ('\r' in ends)) and (('\n' in members) == ('\r' in members))
+            rep.ob('NORM-9', 'parso/python/pep8.py', f.qual, construct, ok, '292 is decided for one newline style only')
     if not found:
-        from ..model import AnalysisError
-        raise AnalysisError('anchor vanished: 292 test in PEP8Normalizer._visit_node')
+        raise AnalysisError('anchor vanished: the report of issue 292 in pep8.py')
     # no state outlives a call: no shared write reachable from the entry points of this property
     from ..rules import eff as _eff
     _eff.eff_1(ctx, rep, only=[('parso/grammar.py', 'Grammar._get_normalizer_issues')], minimum=20)
